@@ -57,6 +57,7 @@ def run(ctx: Ctx) -> None:
     little_endian(ctx, py, rs)
     lookup_purity_and_handlers(ctx, py)
     overlay_extent_and_precedence(ctx, py, rs)
+    lookup_visits_all(ctx, py)
 
 
 # ---------------------------------------------------------------------------
@@ -719,3 +720,56 @@ def overlay_extent_and_precedence(ctx: Ctx, py: PyProgram, rs: RustProgram) -> N
                       f"{lo[1]} looks the overlays up with the address after {list(lo[0]) or 'no reduction'}, {st_[1]} after {list(st_[0]) or 'no reduction'}: an overlay in the window where the two forms differ "
                       "receives stores but is never read (the byte written is not the byte next read)", f"{rel}:{lo[2]}")
     ctx.instance("C11.1/overlay-address-form", "Rust load and store paths hand the overlay dispatch the address in the same form", 2, 2)
+
+
+def lookup_visits_all(ctx: Ctx, py: PyProgram) -> None:
+    """The overlay lookup of MemoryBus.read / write considers *every* registered overlay: the loop that tests `overlay.contains(address)`
+    runs over the list add_overlay() appends to (possibly through an order-preserving wrapper), not over a subset picked by position
+    (a slice, a bisect window, an index) - overlays may nest and overlap, so no window computed from start addresses alone is complete."""
+    mod = py.module(BUS_PY)
+    cls = next((c for c in ast.walk(mod.tree) if isinstance(c, ast.ClassDef) and c.name == "MemoryBus"), None)
+    if cls is None:
+        raise AnalysisError("MemoryBus class vanished")
+    meths = {m.name: m for m in cls.body if isinstance(m, ast.FunctionDef)}
+    add = meths.get("add_overlay")
+    if add is None:
+        raise AnalysisError("MemoryBus.add_overlay vanished")
+    storage = {unparse(c.func.value) for c in ast.walk(add) if isinstance(c, ast.Call) and isinstance(c.func, ast.Attribute) and c.func.attr in ("append", "insert", "add")}
+    if not storage:
+        raise AnalysisError("MemoryBus.add_overlay: overlay storage not found")
+    WRAP = {"tuple", "list", "reversed", "sorted", "iter"}
+
+    def whole(e: ast.AST, depth: int = 0) -> str | None:
+        """None if `e` denotes the whole storage, else what makes it a subset"""
+        if unparse(e) in storage:
+            return None
+        if isinstance(e, ast.Call) and isinstance(e.func, ast.Name) and e.func.id in WRAP and e.args:
+            return whole(e.args[0], depth)
+        if isinstance(e, ast.Call) and isinstance(e.func, ast.Attribute) and isinstance(e.func.value, ast.Name) and e.func.value.id == "self" and e.func.attr in meths and depth < 3:
+            h = meths[e.func.attr]
+            rets = [r.value for r in ast.walk(h) if isinstance(r, ast.Return) and r.value is not None]
+            for r in rets:
+                w = whole(r, depth + 1)
+                if w:
+                    return f"{h.name}() returns `{unparse(r)[:60]}` ({w})"
+            return None if rets else f"{h.name}() returns nothing"
+        if isinstance(e, ast.Subscript):
+            if isinstance(e.slice, ast.Slice) and e.slice.lower is None and e.slice.upper is None and e.slice.step is None:
+                return whole(e.value, depth)          # xs[:] is a copy of the whole list
+            return "a slice/index of the overlay list"
+        raise AnalysisError(f"MemoryBus lookup iterates `{unparse(e)[:60]}`: cannot tell whether that is every registered overlay")
+    n = 0
+    for q in ("read", "write"):
+        fn = meths.get(q)
+        if fn is None:
+            raise AnalysisError(f"MemoryBus.{q} vanished")
+        loops = [l for l in ast.walk(fn) if isinstance(l, ast.For) and any(isinstance(c, ast.Call) and isinstance(c.func, ast.Attribute) and c.func.attr == "contains" for c in ast.walk(l))]
+        if not loops:
+            raise AnalysisError(f"MemoryBus.{q}: overlay lookup loop not found")
+        for l in loops:
+            n += 1
+            w = whole(l.iter)
+            if w:
+                ctx.violation("C11.1/lookup-visits-all", key_of(BUS_PY, f"MemoryBus.{q}", "lookup over a subset of the overlays"),
+                              f"MemoryBus.{q} looks the address up in a subset of the registered overlays: {w}. With nested or overlapping overlays an address inside a registered window falls through to the base map (ROM contents vanish, stores to a read-only window are kept)", f"{BUS_PY}:{l.lineno}")
+    ctx.instance("C11.1/lookup-visits-all", "overlay lookup loops of MemoryBus.read/write iterate the whole overlay list", n, 2)
